@@ -65,7 +65,12 @@ def extract(missing):
     m = re.search(r"let use_uncompressed = compressed\.len\(\) (<=|<|>=|>|==) chunk_len;", cli)
     f["cliStoreRawIf"] = m.group(1) if m else missing("stored-bytes rule in chunk_input")
     m = re.search(r"compression: if source_size (==|!=|<=|>=|<|>) chunk\.len\(\) \{", arch)
-    f["readerRawIf"] = m.group(1) if m else missing("raw rule in chunk_stream")
+    if m:
+        f["readerRawIf"] = m.group(1)
+    else:
+        m = re.search(r"compression: if chunk\.len\(\) (==|!=|<=|>=|<|>) source_size \{", arch)
+        flip = {"==": "==", "!=": "!=", "<": ">", ">": "<", "<=": ">=", ">=": "<="}
+        f["readerRawIf"] = flip[m.group(1)] if m else missing("raw rule in chunk_stream")
     # 3. flushes / rewind / pin comparison (the repairs of F4, F7, F3, F6)
     ci = fn_body(cli, "chunk_input") or ""
     f["cliTempFlushedBeforeReturn"] = bool(re.search(r"temp_file\s*\.flush\(\)\s*\.await", ci)) and \
